@@ -19,6 +19,7 @@ ELECTION_ID = "2022-11-08_USA_G"
 ROLES = [
     "reporting", "reporting", "reporting", "reporting", "reporting", "partial", "partial", "zero-percent",
     "zero-baseline", "blocklisted", "strange-low", "strange-high", "missing", "nan-estimand", "third-party-heavy", "zero-dem-baseline",
+    "no-expected-vote",
 ]
 
 
@@ -245,6 +246,10 @@ def feed_row(rng, e, row, role):
         d, g = int(round(bd * 1.9)), int(round(bg * 1.9))
         t = int(round(bt * 2.2))
         pev = 100
+    elif role == "no-expected-vote":
+        # votes but no expected-vote figure in the feed row: not reporting yet (fix F-20; before it the unit was in no frame)
+        d, g, t = counts(0.2, 1.1)
+        pev = float("nan")
     elif role == "nan-estimand":
         d, g, t = counts(0.7, 1.4)
         pev = 100
@@ -297,8 +302,11 @@ def client_mod():
 
 def run_client(e, estimands=("turnout",), alphas=(0.5,), pi_method="nonparametric", aggregates=None, params=None,
                policy="drop", features=(), fixed_effects=None, client=None, extra=None, keep_client=False, reuse_feed=False,
-               derived_feed=False):
-    """returns {"tables": {name: DataFrame}} or {"raises": class name, "msg": ...}"""
+               derived_feed=False, frame_history=None):
+    """returns {"tables": {name: DataFrame}} or {"raises": class name, "msg": ...}
+
+    frame_history = {"estimands": [...], "scale": s}: the caller polls with ONE DataFrame object: an earlier call (own client) saw the
+    counts scaled by s, then the raw columns were updated in place and the observed call is made with the same object"""
     cm = client_mod()
     cl = client or cm.ModelClient()
     mp = {"fit_margin_outlier_model": False, "fit_turnout_outlier_model": False}
@@ -316,7 +324,23 @@ def run_client(e, estimands=("turnout",), alphas=(0.5,), pi_method="nonparametri
     )
     kw.update(extra or {})
     feed = e.cur if reuse_feed else e.cur.copy()
-    if derived_feed and "margin" in estimands:
+    if frame_history:
+        feed = e.cur.copy()
+        sc = float(frame_history.get("scale", 0.5))
+        for c in ("results_dem", "results_gop", "results_turnout", "percent_expected_vote"):
+            if c in feed.columns:
+                feed[c] = np.floor(feed[c].astype(float) * sc)
+        # the baseline frame and the configuration object are shared with the observed call as well (one caller, one set of objects)
+        kw0 = dict(kw, aggregates=["postal_code", "unit"])
+        try:
+            with np.errstate(all="ignore"):
+                cm.ModelClient().get_estimates(feed, ELECTION_ID, e.office, list(frame_history["estimands"]), [0.7], e.threshold,
+                                               e.unit_type, **kw0)
+        except Exception:  # the earlier poll is only there for what it leaves behind
+            pass
+        for c in e.cur.columns:
+            feed[c] = e.cur[c].values
+    elif derived_feed and "margin" in estimands:
         # a feed that already went through the Estimandizer once (mock live data, a previous poll): derived columns present
         feed = feed.copy()
         feed["results_weights"] = feed["results_dem"] + feed["results_gop"]
